@@ -90,6 +90,11 @@ EXTRA_PROGRAMS = ["(setv x 1) (nonlocal x)", "(nonlocal x) (setv x 1)", "(global
                   "f\"{(do)}\"", "f\"{a !r :{(do)}}\"", "(f #* (do))", "{1 (do)}", "[(do)]", "(f :k (do))", "(for [_ [0]] (pragma :warn-on-core-shadow False))",
                   "(lfor x (do) x)", "(lfor x y (do))", "(dfor x y (do) (do))", "(try 1 (finally (do)))", "(while (do) 1)", "(with [(do)] 1)"]
 
+# collection displays and plain calls (not macro heads): every element list over DISPLAY_ALPHA
+DISPLAY_KINDS = {"list": "[{}]", "tuple": "#({})", "set": "#{{{}}}", "dict": "{{{}}}", "call": "(f {})", "method": "(.m {})"}
+DISPLAY_ALPHA = ["a", "#* a", "#** a", ":k", "(do)", "(unpack-mapping a b)"]
+DISPLAY_N = {"quick": 4, "thorough": 5}
+
 BOUNDS = {
     "quick": dict(full_args=2, reduced_args=2, nest="reduced1", shards=128),
     "thorough": dict(full_args=3, reduced_args=4, nest="full1", shards=1024),
@@ -101,7 +106,8 @@ def bounds(tier):
     return {"argument_alphabet_full": FULL, "argument_alphabet_reduced": REDUCED, "max_args_full": b["full_args"],
             "max_args_reduced": b["reduced_args"], "extra_heads": EXTRA_HEADS, "positions": POSITIONS, "positions_note": "all three for trees with <=1 argument, assignment position for longer ones", "nesting": b["nest"],
             "head_specific_families": {h: {"alphabet": a, "max_args": n} for h, (a, n) in FAMILIES.items()},
-            "head_specific_families_note": "quick uses max_args-1 for families with more than 3000 argument lists; thorough max_args+1 where that stays under 200000", "extra_programs": EXTRA_PROGRAMS}
+            "head_specific_families_note": "quick uses max_args-1 for families with more than 3000 argument lists; thorough max_args+1 where that stays under 200000", "extra_programs": EXTRA_PROGRAMS,
+            "displays": {"kinds": DISPLAY_KINDS, "element_alphabet": DISPLAY_ALPHA, "max_elements": DISPLAY_N[tier]}}
 
 
 def heads():
@@ -135,6 +141,7 @@ def shards(tier):
     out += [["nest", i, 0] for i in range(32)]
     out += [["fam", h, 0] for h in FAMILIES]
     out.append(["extra", 0, 0])
+    out += [["display", k, 0] for k in DISPLAY_KINDS]
     return out
 
 
@@ -194,7 +201,7 @@ def one(acc, head, args, pos, nested_in=None, sample=False):
                      head=outer, inner_head=head, stage=fields["stage"], exc=fields["exc"], msg=fields["msg"], msgkey=msgkey)
 
 
-def whole(acc, text):
+def whole(acc, text, sigkey=None):
     """A complete program text (not of the HEAD ARG* shape)."""
     import re
     acc.evaluations += 1
@@ -205,7 +212,7 @@ def whole(acc, text):
     if not ok:
         msgkey = re.sub(r"[0-9]+|'[^']*'|\"[^\"]*\"", "#", fields["msg"])[:60]
         acc.disagree("compiler-invariant-broken", {"text": text, "head": "<program>", "inner_head": "<program>"}, detail,
-                     sig=f"{fields['stage']}:{fields['exc']}:{msgkey}:<program>:{text[:30]}", head="<program>", inner_head="<program>",
+                     sig=f"{fields['stage']}:{fields['exc']}:{msgkey}:<program>:{sigkey or text[:30]}", head="<program>", inner_head="<program>",
                      stage=fields["stage"], exc=fields["exc"], msg=fields["msg"], msgkey=msgkey)
 
 
@@ -226,6 +233,16 @@ def run_shard(shard, tier):
                 acc.nontrivial += 1
                 for pos in (0, 1):
                     one(acc, h, args, pos, sample=(k == 2 and args[0] == alpha[0] and args[1] == alpha[-1] and pos == 1))
+        return acc.result()
+    if shard[0] == "display":
+        fmt = DISPLAY_KINDS[shard[1]]
+        for k in range(DISPLAY_N[tier] + 1):
+            for els in itertools.product(DISPLAY_ALPHA, repeat=k):
+                acc.states += 1
+                if any(e != "a" for e in els):
+                    acc.nontrivial += 1
+                for pos in (0, 1):
+                    whole(acc, POSITIONS[pos].format(fmt.format(" ".join(els))), sigkey="display:" + shard[1])
         return acc.result()
     if shard[0] == "extra":
         for t in EXTRA_PROGRAMS:
